@@ -151,8 +151,8 @@ theorem regDecl_inv {st ns d st' P} (hI : RegInv st.items P) (h : regDecl st ns 
     · intro n hn; simp [declName] at hn; subst hn; simp [itemOf]
     · intro td' he; cases he
     · intro r' he; cases he; rfl
-  | annot name =>
-    refine bindNew_inv (.annot name) hI h ?_ ?_ ?_
+  | annot name ak =>
+    refine bindNew_inv (.annot name ak) hI h ?_ ?_ ?_
     · intro n hn; simp [declName] at hn
     · intro td' he; cases he
     · intro r' he; cases he
@@ -174,6 +174,10 @@ theorem regDecl_inv {st ns d st' P} (hI : RegInv st.items P) (h : regDecl st ns 
     cases h
     exact ⟨hI.skip ns _ rfl, rfl⟩
   | patch q =>
+    simp only [regDecl] at h
+    cases h
+    exact ⟨hI.skip ns _ rfl, rfl⟩
+  | aliasAnnots n as =>
     simp only [regDecl] at h
     cases h
     exact ⟨hI.skip ns _ rfl, rfl⟩
@@ -272,7 +276,7 @@ theorem addImportsDecls_mem {nss ns} : ∀ {ds : List Decl} {I I'}, addImportsDe
           · cases ht'; exact Or.inl (Or.inl rfl)
           · exact Or.inr ⟨t', rfl, ht'⟩
       · cases h
-    | type _ | «alias» _ _ | route _ | annot _ | annotType _ | patch _ =>
+    | type _ | «alias» _ _ | route _ | annot _ _ | annotType _ | patch _ | aliasAnnots _ _ =>
       simp only [addImportsDecls] at h
       rw [addImportsDecls_mem h p]
       simp
@@ -406,6 +410,19 @@ theorem EnvOK.findDef_other {E fs} (h : EnvOK E fs) {ns n : String} {i : Item}
     rcases hi with ⟨vs, rfl⟩ | rfl
     · exact absurd rfl (hr vs)
     · exact absurd rfl ho
+
+theorem EnvOK.findDef_annot {E fs} (h : EnvOK E fs) {ns n : String} {k : AnnotKind}
+    (hl : E.items.lookup (ns, n) = some (.annot k)) : findDef fs ns n = none := by
+  unfold findDef specDecls
+  cases hf : (declsOf fs ns).find? (fun d => declName d == some n) with
+  | none => rfl
+  | some d =>
+    have hm := List.mem_of_find?_eq_some hf
+    have hp := List.find?_some hf
+    simp only [beq_iff_eq] at hp
+    have := h.lookup_decl hm hp
+    rw [hl] at this
+    cases d <;> simp [declName] at hp <;> simp [itemOf] at this
 
 theorem EnvOK.imported_iff {E fs} (h : EnvOK E fs) (ns q : String) :
     E.imports.contains (ns, q) = imported fs ns q := by
